@@ -357,13 +357,13 @@ def extra_configs(prop, tier, seed):
         # optimizers whose loop does arithmetic on the iteration count (schedules): iteration counts at which a rounded
         # quotient / arange length / product goes wrong by one ulp or one element
         pool = runlevel.gen_configs('thorough', seed + 171)
-        counts = {'IHS': [49, 98, 103, 107, 196], 'WCA': [3, 6, 12, 24, 41, 48, 53], 'FA': [7, 49, 98], 'SA': [7, 49], 'AIWPSO': [7, 49],
+        counts = {'IHS': [49, 98, 103, 107, 196], 'WCA': [3, 11, 22, 6, 12, 44, 24, 41, 48, 53, 75, 88], 'FA': [7, 49, 98], 'SA': [7, 49], 'AIWPSO': [7, 49],
                   'SCA': [49, 98, 103, 107, 196]}
         for kind, ns in counts.items():
             base = next((c for c in pool if c['kind'] == kind and c['space'] == 'search'), None)
             if base is None:
                 continue
-            for n_ in (ns if tier == 'thorough' else ns[:3] if kind in ('IHS', 'WCA') else ns[:1]):
+            for n_ in (ns if tier == 'thorough' else ns[:6] if kind == 'WCA' else ns[:3] if kind == 'IHS' else ns[:1]):
                 extra.append(dict(base, hook='observer', adv=0.0, n_iter=n_, n_agents=3 if kind != 'WCA' else 4, n_vars=1, n_dims=1,
                                   lb=[-2.0], ub=[3.0], box='wide', objective='positive', hyper={}, store_best_only=(n_ % 2 == 0)))
     if prop in ('C03', 'C15'):
@@ -462,16 +462,43 @@ def extra_configs(prop, tier, seed):
         # integers beyond 2**53 (neighbouring values share one double), exact rationals - for the kinds that only compare fitness
         pool_x = [c for c in runlevel.gen_configs('thorough', seed + 381) if c['space'] == 'search']
         kinds_x = {'C02': ['SA', 'HC', 'ABC', 'HS', 'PSO', 'FA', 'CS'], 'C20': ['ABC', 'CS', 'FPA', 'HS', 'IHS', 'BA', 'HC', 'SA'], 'C04': ['HC', 'PSO', 'ABC']}[prop]
-        objs_x = ['uintcost', 'bigint', 'bigpyint', 'thirds']
+        objs_x = ['uintcost', 'bigint', 'bigpyint', 'thirds', 'longdbl', 'arr1']
         for j_, kind in enumerate(kinds_x):
             ks = [c for c in pool_x if c['kind'] == kind]
-            for q_ in range(2 if tier == 'quick' else 6):
+            for q_ in range((4 if kind == 'ABC' else 2) if tier == 'quick' else 6):
                 if not ks:
                     break
                 c = ks[q_ % len(ks)]
                 nv = max(c['n_vars'], 2)
                 extra.append(dict(c, hook='observer', adv=0.0, n_iter=8, n_agents=max(c['n_agents'], 6), n_vars=nv, box='wide', lb=[-10.0] * nv, ub=[10.0] * nv,
-                                  objective=objs_x[(j_ + q_ * 3) % 4] if not (kind == 'SA' and q_ == 0) else 'uintcost', hyper={}, store_best_only=False))
+                                  objective=objs_x[(j_ + q_ * 3) % 6] if not (kind == 'SA' and q_ == 0) else 'uintcost', hyper={}, store_best_only=False))
+    if prop == 'C20':
+        # swarms on a box whose corner is the optimum and the origin: particles are clipped onto exact zeros, a personal best at the
+        # origin is a personal best like any other
+        pool_z = [c for c in runlevel.gen_configs('thorough', seed + 391) if c['space'] == 'search']
+        for kind in ('PSO', 'AIWPSO', 'RPSO'):
+            for q_, c in enumerate([c for c in pool_z if c['kind'] == kind][:2 if tier == 'quick' else 6]):
+                nv = 1 + q_ % 2
+                extra.append(dict(c, hook='observer', adv=0.0, n_iter=14, n_agents=8, n_vars=nv, box='wide', lb=[0.0] * nv, ub=[10.0] * nv,
+                                  objective='sphere', hyper={}, store_best_only=False))
+    if prop in ('C01', 'C06'):
+        # adversarial draws already while the space is built (exactly the low end, the last double below the high end) on boxes whose
+        # end points are not round numbers: the initial population is evaluated unclipped
+        pool_i = [c for c in runlevel.gen_configs('thorough', seed + 401) if c['space'] == 'search']
+        boxes_i = [([2.13, -7.77], [9.43, -0.31]), ([0.1], [0.7]), ([-3.3, 1e-3, 5.55], [1.1, 3e-3, 5.5500001])]
+        for j_, kind in enumerate(['PSO', 'HC', 'ABC', 'SA', 'FA', 'GSA']):
+            for c in [c for c in pool_i if c['kind'] == kind][:1 if tier == 'quick' else 3]:
+                lb_, ub_ = boxes_i[j_ % 3]
+                extra.append(dict(c, hook='observer', adv=0.0, adv_init=1.0 if j_ % 2 == 0 else 0.6, n_iter=2, n_agents=6, n_vars=len(lb_), box='offset',
+                                  lb=list(lb_), ub=list(ub_), objective='sphere', hyper={}, store_best_only=False))
+    if prop == 'C02':
+        # a variable whose bounds were declared the other way round (the library accepts it; every clip then sends it to the declared
+        # upper bound): agent-level and space-level clipping agree, so nothing evaluated inside an update is lost
+        pool_s = [c for c in runlevel.gen_configs('thorough', seed + 411) if c['space'] == 'search']
+        for kind in ('SA', 'ABC', 'FPA', 'CS', 'HS'):
+            for c in [c for c in pool_s if c['kind'] == kind][:1 if tier == 'quick' else 3]:
+                extra.append(dict(c, hook='observer', adv=0.0, n_iter=8, n_agents=6, n_vars=2, box='wide', lb=[-5.0, 4.0], ub=[5.0, -4.0],
+                                  objective='sphere', hyper={}, store_best_only=False))
     if prop == 'C15':
         # the ranges of the adaptive hyperparameters narrowed through the setters by a hook while the task runs
         pool_r = runlevel.gen_configs('thorough', seed + 341)
